@@ -127,6 +127,10 @@ type SPE struct {
 	Decide    func(atom *Expr, p *pathState) (val, known bool)
 	ParamVal  func(p *ssa.Parameter) *Expr
 	FreeVal   func(v *ssa.FreeVar) *Expr
+	// Inline: pure module functions whose paths are spliced into the caller's
+	// (robustness against helper-function refactorings)
+	Inline      func(f *ssa.Function) bool
+	inlineDepth int
 	MaxPaths  int
 	// Env seeds values (e.g. when starting in the middle of a function).
 	SeedEnv map[ssa.Value]*Expr
@@ -326,7 +330,20 @@ func (x *SPE) block(st *pathState, b, pred *ssa.BasicBlock) {
 	for i, phi := range phis {
 		st.env[phi] = phiVals[i]
 	}
-	for _, in := range b.Instrs[len(phis):] {
+	x.instrsFrom(st, b, len(phis))
+}
+
+// instrsFrom executes the instructions of b starting at index from.
+func (x *SPE) instrsFrom(st *pathState, b *ssa.BasicBlock, from int) {
+	for idx := from; idx < len(b.Instrs); idx++ {
+		in := b.Instrs[idx]
+		if call, ok := in.(*ssa.Call); ok && x.Inline != nil {
+			if cal := call.Call.StaticCallee(); cal != nil && cal.Blocks != nil && x.inlineDepth < 2 && x.Inline(cal) {
+				if x.inlineCall(st, b, idx, call, cal) {
+					return
+				}
+			}
+		}
 		switch in := in.(type) {
 		case *ssa.If:
 			cond := x.val(st, in.Cond)
@@ -386,6 +403,71 @@ func (x *SPE) block(st *pathState, b, pred *ssa.BasicBlock) {
 	}
 	// block without terminator (should not happen)
 	x.finish(st, "fallout", nil, b)
+}
+
+// inlineCall splices the paths of a pure callee into the current path.
+// Returns false if the call could not be inlined (executed normally then).
+func (x *SPE) inlineCall(st *pathState, b *ssa.BasicBlock, idx int, call *ssa.Call, cal *ssa.Function) bool {
+	if !x.pure.isPure(cal) || len(naturalLoops(cal)) > 0 || len(cal.Blocks) > 40 {
+		return false
+	}
+	args := make([]*Expr, len(call.Call.Args))
+	for i, a := range call.Call.Args {
+		args[i] = x.val(st, a)
+	}
+	sub := &SPE{Fn: cal, MaxVisits: 1, Inline: x.Inline, inlineDepth: x.inlineDepth + 1, pure: x.pure, Decide: x.Decide}
+	sub.ParamVal = func(p *ssa.Parameter) *Expr {
+		for i, q := range cal.Params {
+			if q == p && i < len(args) {
+				return args[i]
+			}
+		}
+		return nil
+	}
+	sub.Explore()
+	if sub.Truncated > 0 || sub.Overflow || len(sub.Paths) == 0 || len(sub.Paths) > 64 {
+		return false
+	}
+	for _, p := range sub.Paths {
+		if p.Term != "return" {
+			return false
+		}
+	}
+	for i, p := range sub.Paths {
+		t := st
+		if i < len(sub.Paths)-1 {
+			t = st.clone()
+		}
+		// contradictions with what is already known on the caller's path
+		feasible := true
+		for _, l := range p.Lits {
+			if v, ok := t.known(l.Atom); ok && v != l.Pol {
+				feasible = false
+			}
+		}
+		if !feasible {
+			continue
+		}
+		for _, ev := range p.Events {
+			if ev.Kind == EvLits {
+				if _, ok := t.litIdx[ev.Val.String()]; ok {
+					continue
+				}
+				t.lits = append(t.lits, Lit{Atom: ev.Val, Pol: ev.Pol, Pos: ev.Pos})
+				t.litIdx[ev.Val.String()] = ev.Pol
+			}
+			t.events = append(t.events, ev)
+		}
+		switch len(p.Results) {
+		case 0:
+		case 1:
+			t.env[call] = p.Results[0]
+		default:
+			t.env[call] = &Expr{Op: "tuple", Args: p.Results, Type: call.Type()}
+		}
+		x.instrsFrom(t, b, idx+1)
+	}
+	return true
 }
 
 func (st *pathState) addLit(atom *Expr, pol bool, pos token.Pos, in ssa.Instruction) {
@@ -698,6 +780,10 @@ func (x *SPE) instr(st *pathState, in ssa.Instruction) {
 		st.env[in] = &Expr{Op: OpConvert, Name: "convert", Args: []*Expr{x.val(st, in.X)}, Type: in.Type()}
 	case *ssa.Extract:
 		t := x.val(st, in.Tuple)
+		if t.Op == "tuple" && in.Index < len(t.Args) {
+			st.env[in] = t.Args[in.Index]
+			break
+		}
 		st.env[in] = &Expr{Op: OpExtract, Args: []*Expr{t}, ID: in.Index, Type: in.Type()}
 	case *ssa.Field:
 		a := x.val(st, in.X)
